@@ -23,7 +23,8 @@ def main():
     refdir, name, props = sys.argv[1], sys.argv[2], sys.argv[3].split(',')
     dst = os.path.join('/verif/seeded/refactors', name)
     os.makedirs(dst, exist_ok=True)
-    shutil.copy(os.path.join(refdir, 'patch.diff'), os.path.join(dst, 'patch.diff'))
+    if os.path.abspath(refdir) != os.path.abspath(dst):
+        shutil.copy(os.path.join(refdir, 'patch.diff'), os.path.join(dst, 'patch.diff'))
     meta = json.load(open(os.path.join(refdir, 'meta.json')))
     meta['kind'] = 'behaviour-preserving refactoring (false-alarm test)'
     rcopy = '/tmp/refrepo-%s' % name
